@@ -200,6 +200,7 @@ def check(pid, tier, seed, replay):
         "gcd / quotient / reduced-fraction results are judged by postconditions with recorded witnesses, falling back to the specification's own division when a witness does not check",
     ]
     if replay:
+        ck.write_evidence = False
         return do_replay(ck, pid, replay)
     quick = tier == "quick"
     mc_selfcheck(ck, [(2, 3), (3, 3)] if quick else [(2, 3), (3, 3), (4, 3), (10, 2)])
